@@ -810,6 +810,10 @@ func (r *runner) recreate(p *lab.Node, name string, otherPageSize bool) bool {
 	defer conn.Close()
 	res := conn.RunRTx(pager.RTx{Create: true, NewSize: 2, Final: "DELETE", Outcome: "commit"}, nil)
 	if res.Err != nil || !res.Committed {
+		if otherPageSize && res.Err != nil && strings.Contains(res.Err.Error(), "must be exactly one page") {
+			r.viol("C15/recreate-other-page-size", "re-creating database %q with page size %d (it had %d before it was dropped) failed at %q: %v", name, ps, r.cfg.PageSize, res.ErrStep, res.Err)
+			return false
+		}
 		r.viol("C15/recreate-failed", "re-creating database %q failed at %q: %v", name, res.ErrStep, res.Err)
 		return false
 	}
